@@ -56,6 +56,27 @@ Definition spec_join_ok (t : table) (ints : list (list nat)) (S : list nat) (k :
   Nat.ltb k (length ints) &&
   nat_list_eqb (set_at ints k) (inter_all (all_attrs t) (map (set_at ints) S)).
 
+(* meet / join in a list of concepts that need not be complete (concepts were removed): the
+   answer is the greatest lower bound (least upper bound) among the listed concepts, or nothing
+   when there is none *)
+Definition lower_boundb (exts : list (list nat)) (S : list nat) (j : nat) : bool :=
+  forallb (fun s => subsetb (set_at exts j) (set_at exts s)) S.
+Definition upper_boundb (exts : list (list nat)) (S : list nat) (j : nat) : bool :=
+  forallb (fun s => subsetb (set_at exts s) (set_at exts j)) S.
+Definition is_glb (exts : list (list nat)) (S : list nat) (k : nat) : bool :=
+  lower_boundb exts S k &&
+  forallb (fun j => if lower_boundb exts S j then subsetb (set_at exts j) (set_at exts k) else true)
+          (seq 0 (length exts)).
+Definition is_lub (exts : list (list nat)) (S : list nat) (k : nat) : bool :=
+  upper_boundb exts S k &&
+  forallb (fun j => if upper_boundb exts S j then subsetb (set_at exts k) (set_at exts j) else true)
+          (seq 0 (length exts)).
+Definition spec_bound_ok (test : nat -> bool) (n : nat) (r : option nat) : bool :=
+  match r with
+  | Some k => Nat.ltb k n && test k
+  | None => negb (existsb test (seq 0 n))
+  end.
+
 (* ------------------------------------------------------------------ C04 *)
 (* the reduced label of concept i: the objects whose object concept it is *)
 Definition spec_new_extent (t : table) (exts : list (list nat)) (i : nat) : list nat :=
